@@ -308,6 +308,29 @@ def _exec_tz(doc, res):
     res.stats['runs.tz'] += 1
 
 
+def _default_clock_under(zone, res):
+    """A hello random built without an explicit time takes the current time: composed under the installed zone, its
+    4-octet timestamp is the current epoch second (the wall clock is read here only for a +-5 s comparison; no
+    clock value enters the event log)."""
+    def run():
+        from cryptoparser.tls.subprotocol import TlsHandshakeHelloRandom
+        before = int(time.time())
+        composed = bytes(TlsHandshakeHelloRandom().compose())
+        return before, int.from_bytes(composed[:4], 'big'), int(time.time())
+    try:
+        before, stamp, after = _with_zone(zone, run)
+    except (core.RunTimeout, KeyboardInterrupt, SystemExit):
+        raise
+    except BaseException:  # the class cannot be built without arguments on this tree  # pylint: disable=broad-except
+        return
+    res.stats['probe.default_clock_value_composed_under_zone'] += 1
+    if not before - 5 <= stamp <= after + 5:
+        res.violation((PROPERTY, 'default-time-depends-on-time-zone', 'TlsHandshakeHelloRandom'),
+                      'timestamps encode the same instant regardless of the local time zone',
+                      'TZ=%s: a hello random built without an explicit time composes a timestamp %d s away from the '
+                      'current instant' % (zone, stamp - before))
+
+
 def _exec_tzmsg(doc, res):
     seeds = corpus.objects(doc['cls'])
     if not seeds:
@@ -340,6 +363,7 @@ def _exec_tzmsg(doc, res):
         other = reference
     res.event('tzmsg', name, doc['tz'], reference == other)
     res.stats['fault.time_zone_installed'] += 1
+    _default_clock_under(doc['tz'], res)
     if other != reference:
         pos = next((i for i, (a, b) in enumerate(zip(reference, other)) if a != b), 0)
         res.violation((PROPERTY, 'message-compose-depends-on-time-zone', name),
